@@ -3,6 +3,7 @@ mod tok;
 mod spy;
 mod api;
 mod termconf;
+mod show;
 
 use std::io::{BufRead, BufWriter, Write};
 
@@ -25,6 +26,16 @@ fn main() {
                 if line.trim().is_empty() { continue; }
                 let hist: serde_json::Value = serde_json::from_str(&line).expect("bad history json");
                 api::run_history(&hist, &mut out);
+            }
+        }
+        "show" => {
+            clock::enable();
+            for line in input.lines() {
+                let line = line.unwrap();
+                if line.trim().is_empty() { continue; }
+                let v: serde_json::Value = serde_json::from_str(&line).expect("bad json");
+                let hist = if v.get("history").is_some() { v["history"].clone() } else { v };
+                show::run(&hist);
             }
         }
         "termconf" => {
